@@ -106,6 +106,91 @@ def sim_phase(chk, pid, name, consts, mine, num, depth, ctx, nontrivial_fn=None,
     return n
 
 
+ADDPOS_MODULES = {"LwRing", "LwMatrix", "LwCircuitDefs", "LwAddPos"}
+ADDPOS_INV = ["WellFormed", "Refines", "ValidAgree", "HeraldAgree"]
+ADDPOS_VARIANTS = {"nocascade": "Refines", "unpinned": "Refines", "nointcount": "ValidAgree"}
+
+
+def addpos_phase(chk, pid, name, consts, mine, frac, sim_num, sim_consts, sim_depth, ctx, timeout=1500, nontrivial_fn=None, variants=None):
+    """LwAddPos: the positional (implementation-shaped) add algorithm refined against the line-identity model.
+    (1) TLC checks the refinement exhaustively on `consts`; (2) the re-introduced defects must be refuted; (3) dumped programs and
+    -simulate behaviours of a deeper scope are replayed: semantic conformance decides the property, the field-by-field comparison of the
+    private bookkeeping with the positional record is reported (a difference is drift, not a violation)."""
+    wd = tlc.workdir("%s_%s" % (pid, name))
+    tlc.copy_specs(wd, ADDPOS_MODULES)
+    c = dict(consts, Variant="impl")
+    tlc.write_mc(wd, "MC", "LwAddPos", c)
+    tlc.write_cfg(wd, "MC", c, invariants=ADDPOS_INV, properties=[])
+    res = tlc.run(wd, "MC", dump=True, timeout=timeout)
+    tlc.require_clean_run(res, "%s %s" % (pid, name))
+    chk.add_tlc(name, res, "refinement of the positional add algorithm: invariants %s" % ADDPOS_INV)
+    for v in res.violations:
+        raise MachineryError("LwAddPos %s: the transcribed algorithm violates %s at %r (model inconsistent with the abstract Add: "
+                             "either the transcription or the implementation's algorithm is wrong - replay the program)" % (name, v["name"], v["trace"][-1].get("prog")))
+    ops = replay_engine.count_ops(res.dump)
+    if not (ops.get("add") and ops.get("herald") and ops.get("probeall")):
+        raise MachineryError("vacuity: LwAddPos %s actions never taken: %s" % (name, dict(ops)))
+    stats = {"match": 0, "differ": 0}
+
+    def fold(r, label):
+        stats["match" if r.get("pos") == "match" else "differ"] += 1
+        handle(chk, r, label, mine, nontrivial_fn)
+    n = 0
+    for r in replay_engine.replay_dump(res.dump, "harness.adapters.circuit", "dump_worker", ctx, frac=frac, seed=chk.seed, keep=lambda t: '"add"' in t):
+        n += 1
+        fold(r, name)
+    tlc.cleanup("%s_%s" % (pid, name))
+    refuted = {}
+    for variant, inv in ADDPOS_VARIANTS.items():
+        if variants is not None and variant not in variants:
+            continue
+        wdv = tlc.workdir("%s_%s_%s" % (pid, name, variant))
+        tlc.copy_specs(wdv, ADDPOS_MODULES)
+        cv = dict(consts, Variant=variant)
+        tlc.write_mc(wdv, "MC", "LwAddPos", cv)
+        tlc.write_cfg(wdv, "MC", cv, invariants=ADDPOS_INV, properties=[])
+        rv = tlc.run(wdv, "MC", timeout=timeout)
+        names = [v["name"] for v in rv.violations]
+        if inv not in names:
+            raise MachineryError("anti-vacuity: LwAddPos variant %s (a defect re-introduced into the algorithm) was not refuted (%s)" % (variant, names))
+        refuted[variant] = {"invariant": inv, "program": repr(rv.violations[0]["trace"][-1].get("prog"))}
+        tlc.cleanup("%s_%s_%s" % (pid, name, variant))
+    ns = 0
+    escalated = 0
+
+    def run_sim(num, seed, tag):
+        k = 0
+        wds = tlc.workdir("%s_%s_%s" % (pid, name, tag))
+        tlc.copy_specs(wds, ADDPOS_MODULES)
+        cs = dict(sim_consts, Variant="impl")
+        tlc.write_mc(wds, "MC", "LwAddPos", cs)
+        tlc.write_cfg(wds, "MC", cs, invariants=ADDPOS_INV, properties=[])
+        simdir = os.path.join(wds, "sim")
+        os.makedirs(simdir)
+        rs = tlc.run(wds, "MC", workers=8, timeout=timeout, simulate="file=%s/tr,num=%d" % (simdir, max(1, num // 8)), depth=sim_depth, seed=seed)
+        if rs.violations:
+            raise MachineryError("LwAddPos %s (simulate): the transcribed algorithm violates %s at %r" % (name, rs.violations[0]["name"], rs.violations[0]["trace"][-1].get("prog")))
+        if rs.rc != 0 or rs.timed_out:
+            raise MachineryError("%s %s: tlc -simulate failed rc=%s\n%s" % (pid, name, rs.rc, rs.out[-1500:]))
+        sctx = dict(ctx, pnu=sim_consts["PNu"], tnu=tuple(sim_consts["TNu"]), tmpl_loss=sim_consts["TmplLoss"])
+        for r in replay_engine.replay_sim(simdir, "harness.adapters.circuit", "dump_worker", sctx):
+            k += 1
+            fold(r, name + "_sim")
+        tlc.cleanup("%s_%s_%s" % (pid, name, tag))
+        return k
+    if sim_num:
+        ns = run_sim(sim_num, chk.seed % (2 ** 31), "sim")
+        if stats["differ"] > 0 and not chk.violations:
+            # the code no longer is the algorithm the refinement was proved for: the proof says nothing about it any more, so the
+            # semantic replay has to carry the whole weight - look much harder (a difference alone is never reported as a violation)
+            escalated = run_sim(8 * sim_num, (chk.seed + 1) % (2 ** 31), "sim2")
+    chk.traces_validated += n + ns + escalated
+    chk.add_phase("LwAddPos " + name + ": positional add algorithm refined against the abstract Add, replayed field by field",
+                  programs_from_dump=n, sampled_fraction=frac, simulate_behaviours=ns, simulate_depth=sim_depth,
+                  escalated_behaviours_after_drift=escalated, bookkeeping_equal=stats["match"], bookkeeping_differs=stats["differ"], refuted_variants=refuted, op_counts=dict(ops))
+    return n + ns
+
+
 def _gen(args):
     seed, n, numeric, profile = args
     from ..drivers import circuit_driver as cd
